@@ -197,6 +197,14 @@ def main():
     text = ("(* GENERATED by tools/gen_consts.py from /repo/src on every check run. Do not edit. *)\n"
             "From Coq Require Import NArith List.\nImport ListNotations.\nOpen Scope N_scope.\n\n"
             + "\n".join(out) + "\n")
+    # the same numbers for the Rust harness (raw-file parsing needs the slot sizes)
+    import json
+    work = os.path.join(os.path.dirname(os.path.abspath(__file__)), "..", "work")
+    os.makedirs(work, exist_ok=True)
+    cj = json.dumps({"sizes": sizes, "multipart_entry_size": tenv["MULTIPART_ENTRY_SIZE"]})
+    cpath = os.path.join(work, "consts.json")
+    if not os.path.exists(cpath) or open(cpath).read() != cj:
+        open(cpath, "w").write(cj)
     os.makedirs(os.path.dirname(OUT), exist_ok=True)
     old = None
     if os.path.exists(OUT):
